@@ -45,8 +45,6 @@ var nativeRegistry = map[string]interface{}{
 	"strconv.Unquote":              strconv.Unquote,
 	"strconv.ParseFloat":           strconv.ParseFloat,
 	"strconv.FormatFloat":          strconv.FormatFloat,
-	"strconv.ParseBool":            strconv.ParseBool,
-	"strconv.FormatBool":           strconv.FormatBool,
 	"strconv.QuoteToASCII":         strconv.QuoteToASCII,
 	"unicode.IsSpace":              unicode.IsSpace,
 	"unicode.IsUpper":              unicode.IsUpper,
